@@ -448,7 +448,14 @@ inline int main_(int argc, char **argv) {
     auto result = rc::detail::checkTestable([&]() {
       if (!s.failed && elapsed() > budget) { s.budget_exhausted = true; return; }
       if (s.failed) {
-        if (++shrink_tries > 3000 || elapsed() - tshrink0 > 120) return;   // stop shrinking
+        // shrink budget: rapidcheck would go on enumerating (and materialising) shrink candidates of a large case for a long
+        // time even if each is answered "passes"; the best case found so far is on disk, so finish here
+        if (++shrink_tries > 3000 || elapsed() - tshrink0 > 120) {
+          std::ifstream f(out + "/fail.msg"); std::stringstream ss; ss << f.rdbuf();
+          fprintf(stderr, "FALSIFIED %s: %s\n(shrinking stopped at its budget after %ld candidates)\n", p.name.c_str(), ss.str().c_str(), shrink_tries);
+          fflush(stderr);
+          _exit(1);
+        }
       }
       CaseText t = *gen;
       std::string txt = t.dump();
